@@ -41,11 +41,29 @@ Fixpoint opt_all {A} (l : list (option A)) : option (list A) :=
   | None :: _ => None
   end.
 
+(* round 5: WHICH table / column the loader reads for which role is a parameter; Generated/Maskbits.v carries the
+   string constants found in the ast of set_maskbits (C07/Code.v: code_names), Props.v the obligation that they are
+   std_names.  n_bits_size / n_alias_size: the table whose size() bounds the loop; n_alias_guard: the table of the
+   `'MASKALIAS' in maskfile` test. *)
+Record fnames := mknames {
+  n_bits_size : bytes; n_bits_flag : bytes * bytes; n_bits_label : bytes * bytes; n_bits_bit : bytes * bytes;
+  n_alias_guard : bytes; n_alias_size : bytes; n_alias_alias : bytes * bytes; n_alias_flag : bytes * bytes }.
+Definition std_names : fnames :=
+  mknames T_MASKBITS (T_MASKBITS, C_FLAG) (T_MASKBITS, C_LABEL) (T_MASKBITS, C_BIT)
+          T_MASKALIAS T_MASKALIAS (T_MASKALIAS, C_ALIAS) (T_MASKALIAS, C_FLAG).
+
+(* maskfile[T][c] : None = KeyError *)
+Definition tcolumn (r : rdoc) (tc : bytes * bytes) : option (list cell) :=
+  match find_table (fst tc) r with Some t => column t (snd tc) | None => None end.
+Definition tsize (r : rdoc) (t : bytes) : option nat := option_map table_size (find_table t r).
+
 (* None = outside the model: a table without the expected columns, a cell of another kind (the struct declared the
-   column differently), or an index beyond a column's list (IndexError in set_maskbits) *)
-Definition maskbits_rows (t : rtable) : option (list row) :=
-  match column t C_FLAG, column t C_BIT, column t C_LABEL with
-  | Some fs, Some bs, Some ls =>
+   column differently), or an index beyond a column's list (IndexError in set_maskbits).
+   A cell of a char column is taken WHOLE, whatever width the typedef declares (cell_str): the raw reader does not
+   cut values (Yanny.Parse.conv1: KOther => STok t), and neither does set_maskbits. *)
+Definition maskbits_rows_n (n : fnames) (r : rdoc) : option (list row) :=
+  match tsize r (n_bits_size n), tcolumn r (n_bits_flag n), tcolumn r (n_bits_bit n), tcolumn r (n_bits_label n) with
+  | Some sz, Some fs, Some bs, Some ls =>
       opt_all (map (fun k => match nth_error fs k, nth_error bs k, nth_error ls k with
                              | Some f, Some b, Some l =>
                                  match cell_str f, cell_int b, cell_str l with
@@ -53,13 +71,13 @@ Definition maskbits_rows (t : rtable) : option (list row) :=
                                  | _, _, _ => None
                                  end
                              | _, _, _ => None
-                             end) (seq 0 (table_size t)))
-  | _, _, _ => None
+                             end) (seq 0 sz))
+  | _, _, _, _ => None
   end.
 
-Definition maskalias_rows (t : rtable) : option (list arow) :=
-  match column t C_FLAG, column t C_ALIAS with
-  | Some fs, Some als =>
+Definition maskalias_rows_n (n : fnames) (r : rdoc) : option (list arow) :=
+  match tsize r (n_alias_size n), tcolumn r (n_alias_flag n), tcolumn r (n_alias_alias n) with
+  | Some sz, Some fs, Some als =>
       opt_all (map (fun k => match nth_error fs k, nth_error als k with
                              | Some f, Some a =>
                                  match cell_str f, cell_str a with
@@ -67,25 +85,23 @@ Definition maskalias_rows (t : rtable) : option (list arow) :=
                                  | _, _ => None
                                  end
                              | _, _ => None
-                             end) (seq 0 (table_size t)))
-  | _, _ => None
+                             end) (seq 0 sz))
+  | _, _, _ => None
   end.
 
 (* the MASKBITS rows and the MASKALIAS rows (none if the file declares no maskalias struct) *)
-Definition file_tables (r : rdoc) : option (list row * list arow) :=
-  match find_table T_MASKBITS r with
+Definition file_tables_n (n : fnames) (r : rdoc) : option (list row * list arow) :=
+  match maskbits_rows_n n r with
   | None => None
-  | Some tb =>
-      match maskbits_rows tb with
-      | None => None
-      | Some rows =>
-          match find_table T_MASKALIAS r with
-          | None => Some (rows, [])
-          | Some ta => option_map (fun al => (rows, al)) (maskalias_rows ta)
-          end
+  | Some rows =>
+      match find_table (n_alias_guard n) r with
+      | None => Some (rows, [])
+      | Some _ => option_map (fun al => (rows, al)) (maskalias_rows_n n r)
       end
   end.
+Definition file_tables : rdoc -> option (list row * list arow) := file_tables_n std_names.
 
+Definition file_rows_n (n : fnames) (b : bytes) : option (list row * list arow) := obind (parse_raw b) (file_tables_n n).
 Definition file_rows (b : bytes) : option (list row * list arow) := obind (parse_raw b) file_tables.
 
 (* set_maskbits(maskbits_file=...) on the bytes of the file *)
@@ -103,17 +119,56 @@ Definition arow_eqb (a b : arow) : bool := str_eqb (fst a) (fst b) && str_eqb (s
 
 (* text: the file; rows / aliases: what the REAL raw reader returned for it; the rest as in Model.case *)
 Inductive fcase :=
-  FCase (c : cfg) (text : string) (rows : list row) (aliases : list arow) (loaded : Z) (calls : list (call * res)).
+  FCase (c : cfg) (n : fnames) (text : string) (rows : list row) (aliases : list arow) (loaded : Z) (tbl : table)
+        (calls : list (call * res)).
 
 (* verdicts: [reader] ++ [load] ++ calls.  reader: 0 = the Coq reader model gives the rows the real reader gave,
    1 = it does not (or the file is outside the model).  Everything after is computed from the rows COQ parsed. *)
+(* round 5: the load entry also compares the dictionary the real set_maskbits returned (tbl, cell by cell, in its own
+   order) with M's (+1) and, for a well-formed file, with the specification of the dictionary (+2).
+   M reads the file through the names found in the source (rm, am = file_rows_n n); S and the well-formedness test
+   always use the rows of the standard reading (rs, as = file_rows), so a loader that reads other cells is judged
+   against the file, not against itself. *)
+Definition table_verdict (c : cfg) (rm : list row) (am : list arow) (rs : list row) (als : list arow) (loaded : Z) (tbl : table) : Z :=
+  if loaded =? 0 then
+    match load_c c rm am with
+    | Some m => (if table_eqb m tbl then 0 else 1)
+                + (if wf_file rs als && negb (spec_table_ok rs als tbl) then 2 else 0)
+    | None => 0
+    end
+  else 0.
+
+Definition call_verdict_2 (c : cfg) (wf : bool) (m : table) (rs : list row) (als : list arow) (ce : call * res) : Z :=
+  let (k, expect) := ce in
+  (if res_eqb (model_call_c c m k) expect then 0 else 1)
+  + (if wf then
+       match spec_call rs als k with
+       | Some s => if res_eqb (res_upper s) (res_upper expect) then 0 else 2
+       | None => 0
+       end
+     else 0).
+
+Definition call_verdicts_2 (c : cfg) (rm : list row) (am : list arow) (rs : list row) (als : list arow) (loaded : Z)
+                           (calls : list (call * res)) : list Z :=
+  let wf := wf_file rs als in
+  match load_c c rm am with
+  | None => [(if loaded =? 1 then 0 else 1) + (if wf && negb (loaded =? 0) then 2 else 0)]
+  | Some m =>
+      if loaded =? 0 then 0 :: map (call_verdict_2 c wf m rs als) calls
+      else [1 + (if wf then 2 else 0)]
+  end.
+
 Definition fcase_verdicts (fc : fcase) : list Z :=
   match fc with
-  | FCase c text rows aliases loaded calls =>
-      match file_rows (bs text) with
-      | Some (rows', aliases') =>
-          (if list_eqb row_eqb rows' rows && list_eqb arow_eqb aliases' aliases then 0 else 1)
-          :: call_verdicts_c c rows' aliases' loaded calls
+  | FCase c n text rows aliases loaded tbl calls =>
+      match obind (parse_raw (bs text)) (fun r => match file_tables r, file_tables_n n r with
+                                                  | Some a, Some b => Some (a, b) | _, _ => None end) with
+      | Some ((rs, als), (rm, am)) =>
+          (if list_eqb row_eqb rs rows && list_eqb arow_eqb als aliases then 0 else 1)
+          :: match call_verdicts_2 c rm am rs als loaded calls with
+             | v0 :: t => Z.lor v0 (table_verdict c rm am rs als loaded tbl) :: t
+             | [] => []
+             end
       | None => [1]
       end
   end.
